@@ -34,7 +34,12 @@ def is_value(obj):
     if not isinstance(obj, base.Asn1Item) or obj is base.noValue:
         return False
     try:
-        return bool(obj.isValue)
+        if not obj.isValue:
+            return False
+        obj.prettyPrint()          # a value object can be printed and, if it has a length, measured
+        if hasattr(obj, '__len__'):
+            len(obj)
+        return True
     except Exception:
         return False
 
